@@ -3,7 +3,8 @@
 usage: c14_worker.py <workload.json> <order seed> <repo>   -> JSON lines {"key", "val"} on stdout"""
 import hashlib, json, os, random, sys
 sys.path.insert(0, os.path.dirname(os.path.abspath(__file__)))
-sys.path.insert(0, sys.argv[3])
+if __name__ == "__main__":
+    sys.path.insert(0, sys.argv[3])          # the working tree under test
 from project import project
 
 
